@@ -406,12 +406,15 @@ package route
 //@ func Parse
 //@   props C02 C14
 //@   requires in != nil && parserReady()
-//@   assigns bufOf
+//@   assigns bufOf, scanFailed
 //@   // no configuration text can make the parser panic
 //@   ensures nopanic
 //@   ensures [assumed] (err == nil) == accepts(old(bufOf[in]))
 //@   ensures [assumed] err == nil ==> (len(defs) == 1 && defs[0].Cmd == "route add") == singleAdd(old(bufOf[in]))
 //@   ensures [assumed] forall x *bytes.Buffer :: x != in ==> bufOf[x] == old(bufOf[x])
+//@   // success means the WHOLE text was read: the scanner stopped at the end of the input, not on an error of its own
+//@   // (it gives up on a line longer than its limit - without this the rest of the configuration was dropped silently)
+//@   at "return defs, nil" assert @C02 !scanFailed[scanner]
 //@   // an error never comes with a partial result; every parsed definition is usable
 //@   ensures err != nil ==> defs == nil
 //@   ensures forall i int :: 0 <= i && i < len(defs) ==> defs[i] != nil
@@ -903,7 +906,7 @@ package route
 //@ func NewTable
 //@   props C02
 //@   requires b != nil && buildReady()
-//@   assigns bufOf, builtFrom, mapsOf(map[string]Routes), elems(*Route), Route.Targets, Route.wTargets, elems(*Target), Target.Weight, Target.FixedWeight, Target.accessRules, elems(interface{}), mapsOf(map[string][]interface{}), ioWrites, lastWrite
+//@   assigns bufOf, scanFailed, builtFrom, mapsOf(map[string]Routes), elems(*Route), Route.Targets, Route.wTargets, elems(*Target), Target.Weight, Target.FixedWeight, Target.accessRules, elems(interface{}), mapsOf(map[string][]interface{}), ioWrites, lastWrite
 //@   sets builtFrom[t] = old(bufOf[b])
 //@   ensures [assumed] (err == nil) == tableAccepts(old(bufOf[b]))
 //@   ensures nopanic
